@@ -141,14 +141,14 @@ let () =
                        a_len = z_of_string len; a_cap = z_of_string cap;
                        a_x = z_of_string x; a_ops = bytes_of_hex hex } in
              let v = List.map z_of_string nums in
-             let m = xmodel a v in
+             let m = xmodel2 a v in
              if not (zlist_eqb m v) then begin
                incr corr; Printf.printf "CORR %d model=%s :: %s\n" ln (show_zs m) line
              end;
              List.iter (fun (p, okb) ->
                if not okb then begin
-                 incr mon; Printf.printf "MON C%02d %d allocation-observation-violates-the-statement :: %s\n" (int_of_n p) ln line
-               end) (xmonitors a v)
+                 incr mon; Printf.printf "MON C%02d %d observation-violates-the-statement :: %s\n" (int_of_n p) ln line
+               end) (xmonitors2 a v)
            | _ -> incr corr; Printf.printf "CORR %d malformed-alloc-case :: %s\n" ln line)
         | [c; o; t; f] ->
           (match words c with
